@@ -4,7 +4,7 @@
 (*   init    init --dry ; init ; show ; init  on one project layout (C19)  *)
 (*   load    one abstract configuration loaded from a concrete file (C18)  *)
 (***************************************************************************)
-EXTENDS TraceBase, BVConfig
+EXTENDS TraceBase, BVConfig, BVPattern
 VARIABLE l
 TraceInit == l = 1
 Good == <<OK, 0>>
@@ -27,7 +27,22 @@ InitVerdict(e) ==
   ELSE IF e.exits[4] = 0 \/ e.changed4 # <<>> THEN <<"init:second-init-not-refused", e.changed4>>
   ELSE Good
 
-Verdict(e) == CASE e.ev = "init" -> InitVerdict(e) [] OTHER -> <<"unknown-event", e.ev>>
+\* one abstract configuration written in one syntax and spelling, loaded by the real reader (C18)
+\*  e.A : the abstract configuration   e.fmt   e.loaded : projection of the loaded Config ([valid |-> FALSE] if it was rejected)
+\*  e.cfgfile : the config file's path   e.self : the search pattern(s) the loader attached to the config file itself (ASTs)   e.cvline : the file's current_version line
+LoadVerdict(e) ==
+  LET x == Effective(e.A) IN
+  IF x.valid # e.loaded.valid THEN <<"load:validity", x.valid>>
+  ELSE IF ~x.valid THEN Good
+  ELSE LET scalars == {"version", "pattern", "commit_message", "tag_message", "tag_scope", "pre", "post", "commit", "tag", "push"}
+           bad == {k \in scalars : x[k] # e.loaded[k]} IN
+  IF bad # {} THEN <<"load:setting-differs", [k \in bad |-> <<x[k], e.loaded[k]>>]>>
+  ELSE IF x.files # {<<e.loaded.files[q][1], e.loaded.files[q][2]>> : q \in 1..Len(e.loaded.files)} THEN <<"load:file-pattern-pairs", x.files>>
+  ELSE IF e.self = <<>> THEN <<"load:config-file-own-pattern-missing", 0>>
+  ELSE IF ~\E q \in 1..Len(e.self) : Search(Compile(e.self[q]), e.cvline).ok THEN <<"load:own-pattern-does-not-match-current-version-line", e.cvline>>
+  ELSE Good
+
+Verdict(e) == CASE e.ev = "load" -> LoadVerdict(e) [] e.ev = "init" -> InitVerdict(e) [] OTHER -> <<"unknown-event", e.ev>>
 TraceNext == /\ l <= Len(Trace) /\ l' = l + 1
              /\ LET v == Verdict(Trace[l]) IN v[1] = OK \/ Report(Trace[l], v[1], v[2])
 TraceAccepted == TLCGet("stats").diameter - 1 = Len(Trace)
